@@ -77,6 +77,33 @@ def desugar(loc, relfile, fn_paths, rules, _pass=0, optional=()):
                     rewrites.append((a, b, new))
                     records.append({"fn": fp, "rule": "D52 X.iter().copied().collect()  =>  pv_collect_copied(&X)   (stub: a collection with the elements of X in order; the target type is the declared one)",
                                     "original": src[a:b], "rewritten": new})
+            if "D59" in rules:
+                # E.unwrap_or_else(|| { panic!(..) })  =>  E.unwrap()   (the same control flow: a panic when E is None; only the message differs)
+                seg = src[it["start"]:it["end"]]
+                for m in re.finditer(r"\.unwrap_or_else\(\|\|\s*\{?\s*panic!\(", seg):
+                    depth, k, instr = 0, m.start() + len(".unwrap_or_else"), False
+                    while k < len(seg):
+                        c = seg[k]
+                        if instr:
+                            if c == "\\":
+                                k += 1
+                            elif c == '"':
+                                instr = False
+                        elif c == '"':
+                            instr = True
+                        elif c == "(":
+                            depth += 1
+                        elif c == ")":
+                            depth -= 1
+                            if depth == 0:
+                                break
+                        k += 1
+                    if k >= len(seg):
+                        raise Undecided(f"{fp}: rule D59 cannot find the end of unwrap_or_else(..)")
+                    a, b = it["start"] + m.start(), it["start"] + k + 1
+                    rewrites.append((a, b, ".unwrap()"))
+                    records.append({"fn": fp, "rule": "D59 E.unwrap_or_else(|| panic!(..))  =>  E.unwrap()   (a panic when E is None either way; the message is not modelled)",
+                                    "original": src[a:b], "rewritten": ".unwrap()"})
             if "D58" in rules:
                 # A.iter().zip(B.iter()).filter(|(_, &w)| C).map(|(x, &w)| E).collect::<Box<[_]>>() over two shared slices
                 # `Rc<[T]>` that the function only iterates: an index loop up to the shorter length
